@@ -4,31 +4,27 @@
 From TL Require Import Lib.Base Lib.GenTypes Model.RustSafetyTypes Model.RustSafetySpec Gen.RustSafetyGen
      Model.RustSafety Actual.RustSafetyActual Proofs.RustSafetyWalk Proofs.RustSafetyCtx Proofs.RustSafetyEmit Proofs.RustSafetyMain.
 
-Definition no_comment (s : sib) : bool := match s with SComment => false | SAttr _ => true end.
 (* the substring test of the code says what the attribute means *)
 Definition attr_plain (needle : string) (sem : string -> bool) (s : sib) : bool :=
   match s with SAttr t => Bool.eqb (contains needle t) (sem t) | SComment => true end.
 
-Definition bare_net_pat : path_pat := pat 2 [(0, PIn net_types)].
-
 (* outside the defect classes, node by node:
    - no reportable call inside a macro invocation;
-   - no comment among an item's attributes; on functions "test" occurs in an attribute exactly when it marks a
-     test function, on modules "cfg(test)" occurs exactly when the attribute implies cfg(test);
-   - a method call is on the line where its receiver chain starts; no clone in a `for` iterator expression;
-   - no call path of the form NetType::method *)
+   - on functions "test" occurs in an attribute exactly when it marks a test function, on modules "cfg(test)"
+     occurs exactly when the attribute implies cfg(test)  (comments among the attributes are harmless since def5e3f);
+   - a method call is on the line where its receiver chain starts; no clone in a `for` iterator expression
+   (every call path is classified as documented since e1a1fd7) *)
 Definition plain_ok (w : linter) (g : gctx) (k : kind) (cs : list node) : bool :=
   (negb (g_macro g) || negb (risky w k)) &&
   match k with
-  | KFn pre _ _ => forallb no_comment pre && forallb (attr_plain "test" attr_is_test_fn) pre
-  | KMod pre => forallb no_comment pre && forallb (attr_plain "cfg(test)" attr_is_cfg_test) pre
+  | KFn pre _ _ => forallb (attr_plain "test" attr_is_test_fn) pre
+  | KMod pre => forallb (attr_plain "cfg(test)" attr_is_cfg_test) pre
   | KMethod sl sc ml name =>
     match w with
     | LUnwrap => sl =? ml
     | LClone => (sl =? ml) && (negb (g_forhdr g) || negb (String.eqb name "clone"))
     | LBlocking => true
     end
-  | KCall _ _ path => match w with LBlocking => negb (pat_matches path bare_net_pat) | _ => true end
   | _ => true
   end.
 
@@ -47,12 +43,15 @@ Proof.
 Qed.
 
 (* ------------------------------------------------------------------ attributes *)
-Lemma sib_walk_plain q needle sem l :
-  forallb no_comment l = true -> forallb (attr_plain needle sem) l = true ->
-  sib_walk q (attr_hit needle sem true) l = has_attr sem l.
+Lemma sib_walk_plain run needle sem l :
+  smem "attribute_item" run = true -> smem "line_comment" run = true ->
+  forallb (attr_plain needle sem) l = true ->
+  sib_walk run "attribute_item" (attr_hit needle sem true) l = has_attr sem l.
 Proof.
-  unfold has_attr. induction l as [|[t|] r IH]; cbn [forallb no_comment attr_plain sib_walk existsb attr_hit]; intros NC PL; [reflexivity| |discriminate].
-  apply andb_true_iff in PL as [P1 P2]. rewrite (eqb_true_eq _ _ P1), (IH NC P2). now destruct (sem t).
+  intros HA HC. unfold has_attr. induction l as [|[t|] r IH]; cbn [forallb attr_plain sib_walk existsb attr_hit sib_type]; intros PL; [reflexivity| |].
+  - apply andb_true_iff in PL as [P1 P2]. rewrite HA, (eqb_true_eq _ _ P1), (IH P2).
+    cbn [String.eqb Ascii.eqb Bool.eqb andb]. now destruct (sem t).
+  - rewrite HC. cbn [String.eqb Ascii.eqb Bool.eqb andb orb]. exact (IH PL).
 Qed.
 
 Lemma forallb_rev {A} (f : A -> bool) l : forallb f (rev l) = forallb f l.
@@ -61,43 +60,25 @@ Proof.
   rewrite andb_true_r. apply andb_comm.
 Qed.
 
-Lemma attrs_plain_ok needle sem pre :
-  forallb no_comment pre = true -> forallb (attr_plain needle sem) pre = true ->
-  Bool.eqb (sib_walk rust_actual (attr_hit needle sem true) (rev pre)) (has_attr sem pre) = true.
+Lemma attrs_plain_ok run needle sem pre :
+  smem "attribute_item" run = true -> smem "line_comment" run = true ->
+  forallb (attr_plain needle sem) pre = true ->
+  Bool.eqb (sib_walk run "attribute_item" (attr_hit needle sem true) (rev pre)) (has_attr sem pre) = true.
 Proof.
-  intros NC PL. rewrite (sib_walk_plain rust_actual needle sem (rev pre)); [|now rewrite forallb_rev|now rewrite forallb_rev].
+  intros HA HC PL. rewrite (sib_walk_plain run needle sem (rev pre) HA HC); [|now rewrite forallb_rev].
   unfold has_attr. rewrite existsb_rev. apply eqb_reflx.
-Qed.
-
-(* ------------------------------------------------------------------ call paths *)
-Definition std_pats (cl : string) : list path_pat :=
-  match assoc cl spec_blocking_classes with Some l => removelast l | None => [] end.
-
-Lemma code_table_shape :
-  blocking_classes = [("fs-in-async", [pat 3 [(0, PEq "std"); (1, PEq "fs"); (2, PIn fs_functions)]; pat 2 [(0, PEq "fs"); (1, PIn fs_functions)]]);
-                      ("sleep-in-async", [pat 3 [(0, PEq "std"); (1, PEq "thread"); (2, PEq "sleep")]; pat 2 [(0, PEq "thread"); (1, PEq "sleep")]]);
-                      ("net-in-async", [pat 3 [(0, PEq "std"); (1, PEq "net"); (2, PIn net_types)]; pat 2 [(0, PEq "net"); (1, PIn net_types)]])].
-Proof. reflexivity. Qed.
-
-Lemma classify_plain path : pat_matches path bare_net_pat = false ->
-  classify_path blocking_classes path = classify_path spec_blocking_classes path.
-Proof.
-  intros H. rewrite code_table_shape. unfold spec_blocking_classes. cbn [classify_path].
-  destruct (existsb (pat_matches path) _); [reflexivity|].
-  destruct (existsb (pat_matches path) _); [reflexivity|].
-  cbn [existsb]. fold bare_net_pat. rewrite H. reflexivity.
 Qed.
 
 (* ------------------------------------------------------------------ plain files pass the faithful model's guard *)
 Lemma plain_ok_gok w g k cs : plain_ok w g k cs = true -> gok w rust_actual g k cs = true.
 Proof.
   unfold plain_ok, gok. intros H. apply andb_true_iff in H as [H1 H2]. rewrite H1. cbn [andb].
+  destruct (run_types_ok rust_actual) as (A1 & C1 & A2 & C2).
   destruct k as [pre|pre a nm| |b| |x| |nm| |sl sc ml name|sl sc path|p| |lk pat| | |nm]; try reflexivity.
-  - apply andb_true_iff in H2 as [NC PL]. exact (attrs_plain_ok cfg_attr_needle attr_is_cfg_test pre NC PL).
-  - apply andb_true_iff in H2 as [NC PL]. exact (attrs_plain_ok test_attr_needle attr_is_test_fn pre NC PL).
+  - exact (attrs_plain_ok _ cfg_attr_needle attr_is_cfg_test pre A2 C2 H2).
+  - exact (attrs_plain_ok _ test_attr_needle attr_is_test_fn pre A1 C1 H2).
   - destruct w; cbn [rust_actual q_chain_start_line negb orb]; exact H2.
-  - destruct w; try reflexivity. apply negb_true_iff in H2.
-    change (blocking_classes_of rust_actual) with blocking_classes. rewrite (classify_plain path H2). apply ostr_eqb_refl.
+  - destruct w; try reflexivity. rewrite (classes_documented rust_actual path). apply ostr_eqb_refl.
 Qed.
 
 Lemma file_plain_guard w file : file_plain w file = true -> file_guard w rust_actual file = true.
